@@ -21,7 +21,11 @@ func MatchWildcardRegexp(query string, exact bool) *regexp.Regexp {
 	if exact {
 		return regexp.MustCompile(fmt.Sprintf("^%s$", regexpQuery))
 	}
-	return regexp.MustCompile(fmt.Sprintf("^%s", regexpQuery))
+	if strings.HasSuffix(regexpQuery, "/") {
+		return regexp.MustCompile(fmt.Sprintf("^%s", regexpQuery))
+	}
+	// the queried node itself or anything beneath it - at a path element (or list key) boundary
+	return regexp.MustCompile(fmt.Sprintf(`^%s($|/|\[)`, regexpQuery))
 }
 
 // MatchWildcardChNameRegexp creates a Regular Expression from a wild-carded path
